@@ -138,6 +138,11 @@ SCENARIOS = {
                           calls=[(1, 0, 'echo'), (1, 2, 'add')]),
     '3c-mixed': dict(n=3, exporters={0: 'org.ex.A'},
                      calls=[(1, 0, 'slow'), (2, 0, 'who'), (1, 0, 'add')]),
+    '2c-after-be': dict(n=2, exporters={0: 'org.ex.A'}, be_peer=True,
+                        calls=[(1, 0, 'echo'), (1, 0, 'add')]),
+    '3c-after-be': dict(n=3, exporters={0: 'org.ex.A', 2: 'org.ex.C'},
+                        be_peer=True,
+                        calls=[(1, 0, 'echo'), (1, 2, 'add'), (2, 0, 'swap')]),
     '4c': dict(n=4, exporters={0: 'org.ex.A', 3: 'org.ex.D'},
                calls=[(1, 0, 'echo'), (2, 3, 'echo2'), (1, 3, 'add')]),
 }
@@ -194,6 +199,29 @@ class System:
             self.cprotos[idx].exportObject(o)
             self.cprotos[idx].requestBusName(name)
         self.pump()
+        if sc.get('be_peer'):
+            # one more peer on the bus, written with another library on a
+            # big-endian machine: it calls every exporter once before the
+            # measured calls (the bus hands messages on in the byte order
+            # they arrived in, so the exporters get to read a big-endian
+            # message followed by little-endian ones)
+            from mcx import refcodec as R
+            rp = bf.buildProtocol(None)
+            rt = fakes.FakeTransport()
+            rp.makeConnection(rt)
+            rp.dataReceived(b'\0AUTH ANONYMOUS\r\nBEGIN\r\n')
+            rp.dataReceived(R.encode_message(
+                1, 1, {'path': '/org/freedesktop/DBus', 'member': 'Hello',
+                       'interface': 'org.freedesktop.DBus',
+                       'destination': 'org.freedesktop.DBus'}, little=False))
+            for k, (idx, name) in enumerate(sorted(sc['exporters'].items())):
+                rp.dataReceived(R.encode_message(
+                    1, 2 + k, {'path': '/svc', 'member': 'Echo',
+                               'interface': 'org.ex.Svc',
+                               'destination': name}, 's', ['from-be'],
+                    little=False))
+            self.pump()
+            self.raw_peer = (rp, rt)
         self.proxies = {}
         for (caller, exporter, key) in sc['calls']:
             if (caller, exporter) in self.proxies:
@@ -495,6 +523,7 @@ def run(ctx):
                 ('3c-2callers', 'explicit', 1),
                 ('3c-2exporters', 'introspect', 1)]
         plan += [('2c-2calls', m, 0) for m in NAME_MODES]
+        plan += [('2c-after-be', 'explicit', 1), ('3c-after-be', 'introspect', 0)]
         limit = 5000
     else:
         plan = [('2c-2calls', 'explicit', 2), ('2c-2calls', 'introspect', 1),
@@ -509,6 +538,8 @@ def run(ctx):
                 ('3c-mixed', 'explicit', 0), ('4c', 'explicit', 0)]
         plan += [('2c-2calls', m, 0) for m in NAME_MODES]
         plan += [('2c-fail', m, 1) for m in NAME_MODES[:4]]
+        plan += [('2c-after-be', 'explicit', 1), ('2c-after-be', 'introspect', 1),
+                 ('3c-after-be', 'introspect', 1)]
         limit = 60000
     for scn, mode, dev in plan:
         dfs.explore(ctx, make_runner,
